@@ -51,7 +51,12 @@ pub fn worker(tier: &str, seed: u64, from: u64, to: u64, extra: &[String]) -> Ag
     let mut agg = Agg::default();
     let tier = tier_of(tier);
     let progress_file = std::env::var("VERIF_WORKER_OUT").unwrap_or_default();
-    for i in from..to {
+    let stride = runner::stride_of(extra);
+    let mut i = from;
+    while i < to {
+        let this_i = i;
+        i += stride;
+        let i = this_i;
         if !progress_file.is_empty() {
             runner::note_progress(&progress_file, i);
         }
